@@ -315,7 +315,7 @@ def check_c10(run):
 
     def add(text, cls, declared=None):
         s = {"id": len(sessions) + 1, "kind": "compile", "class": cls, "base": base, "declared": declared or [],
-             "selffirst": rng.random() < 0.35, "cleared": rng.random() < 0.25}
+             "selffirst": rng.random() < 0.35, "cleared": rng.random() < 0.25, "baseincr": rng.random() < 0.4}
         if isinstance(text, bytes):
             try:
                 s["text"] = text.decode("utf-8")
